@@ -15,6 +15,7 @@ from ..core import VB, nproc
 from ..par import pmap, chunks
 from .. import drv, shapes
 from .. import isacheck as I
+from ..spec.operands import pre_table_diffs
 
 IMEM = 0x100000
 BPX = [(0x10, 0x23, 0x45), (0xF0, 0x20, 0x31), (0x00, 0x00, 0x00)]
@@ -48,14 +49,18 @@ def _shard(args):
     vb = VB()
     n = judged = skipped = 0
     for pre, op in pairs:
-        for d in shapes.shapes_for(pre, op, tail):
+        for shape_no, d in enumerate(shapes.shapes_for(pre, op, tail)):
             ins, _ = drv.py_decode(d, I.CODE)
             d = d[: ins.length()]
             mn = ins.name()
-            for st in sts:
+            for st_no, st in enumerate(sts):
                 c = make_case(d, st, mn)
                 o = I.run_case(c)
                 n += 1
+                if st_no == 0 and getattr(o, "ops", None) is not None:
+                    # the modes shown for `(m),(n)` under a prefix byte are those of the documented prefix table
+                    for kind, what in pre_table_diffs(getattr(ins, "_pre", None), o.ops):
+                        vb.add(f"C03/{kind}/{mn}/op={ins.opcode:02X}/pre={ins._pre:02X}", f"{d.hex()} '{o.text}': {what}", c.witness)
                 if o.skip:
                     skipped += 1
                     continue
@@ -65,7 +70,8 @@ def _shard(args):
                            f"{d.hex()} '{o.text}' BP/PX/PY={st[0]} I={st[1]['I']}: {what}", c.witness)
             # counted transfers with more than 256 elements: the external side, the count and the pointers stay documented
             if mn in ("MVL", "MVLD"):
-                for big in LARGE_I:
+                # one shape in eight (unprefixed) also with a count far beyond any step budget an evaluator might have
+                for big in LARGE_I + ((HUGE_I,) if pre is None and shape_no % 8 == 0 else ()):
                     c, o = large_case(d, sts[0], mn, big)
                     n += 1
                     if o.skip:
@@ -81,6 +87,7 @@ def _shard(args):
 
 
 LARGE_I = (0x100, 0x101, 0x203)
+HUGE_I = 0x3000
 
 
 def large_case(d: bytes, state, mn: str, big: int):
@@ -112,7 +119,8 @@ def run(ctx) -> None:
         "samples": [{"bytes": "30c81020", "text": "MV (10), (BP+20)", "state": {"BP": 0x10, "PX": 0x23, "PY": 0x45}}],
     })
     ctx.assumptions += ["fetch reads are separated from data reads by address (code lives at 0x1000..0x1020, no operand points there)",
-                        "a redundant read of the destination bytes is accepted"]
+                        "a redundant read of the destination bytes is accepted",
+                        "the prefix byte table of the README settles the modes of instructions written (m),(n) only; other operand shapes are judged text against IL"]
 
 
 def replay(ctx, w) -> Optional[str]:
@@ -124,6 +132,10 @@ def replay(ctx, w) -> Optional[str]:
         acc, _ = I.large_count_diffs(o, c)
         return f"'{o.text}': {acc[0][1]}" if acc else None
     o = I.run_case(c)
+    if getattr(o, "ops", None) is not None and o.ins is not None:
+        t = pre_table_diffs(getattr(o.ins, "_pre", None), o.ops)
+        if t:
+            return f"'{o.text}': {t[0][1]}"
     if o.skip:
         return None
     d = I.access_diffs(o, c)
